@@ -243,6 +243,16 @@ C08(T) ==
                                                    \/ st[k].p.size # size
                                                    \/ /\ (T.cfg.chk # "MODULAR" \/ Len(f) = size)   \* modular: whole file only (F17)
                                                       /\ st[k].p.chk # FileChecksum(T.cfg.chk, f, size) } }
+               \* a NAK must not make the source emit a further EOF: after the retransmission it is back where it was
+               \* (an EOF that follows an earlier one is legitimate only as a positive-ACK timer re-send)
+               \cup { V("C08", "spurious-eof-after-retransmission", st[k].i, Kf(T), "", "") :
+                      k \in { k \in DOMAIN st : /\ st[k].p.t = "EOF" /\ st[k].p.cond = "NO_ERROR"
+                                                /\ \E j \in 1..(k - 1) :
+                                                      /\ st[j].p.t = "EOF" /\ st[j].p.cond = "NO_ERROR"
+                                                      /\ T.ev[st[k].i].now - T.ev[st[j].i].now < T.cfg.ackInt
+                                                      \* ... and a NAK was served in between
+                                                      /\ \E m \in (st[j].i)..(st[k].i) : /\ T.ev[m].side = "S" /\ T.ev[m].call = "fsm"
+                                                                                         /\ T.ev[m].arg.t = "NAK" /\ T.ev[m].exc = "none" } }
                : qv \in SeqNums(T) }
 
 \* ===== C19: put requests are admitted, parameterised and identified correctly =====
